@@ -218,7 +218,7 @@ Ltac inv_of lem E :=
   | run ?m ?w = (_, ?w1) => pose proof (run_inv _ lem _ m w) as H; rewrite E in H; simpl in H
   end.
 
-Lemma connect_spec : forall ssl w c w1, run_prim (PConnect ssl) w = (c, w1) -> w_conn w = conn0 ->
+Lemma connect_spec : forall ssl w c w1, run_prim (PConnect ssl true) w = (c, w1) -> w_conn w = conn0 ->
   match c with
   | Some _ => w_conn w1 = conn0 /\ w_trace w1 = w_trace w /\ w_cs w1 = w_cs w
   | None => opened (w_conn w1) = true /\ copen (w_conn w1) = true /\ hung (w_conn w1) = false /\ ctls (w_conn w1) = ssl
@@ -241,11 +241,13 @@ Lemma connect2_spec : forall cfg w c w1, run (connect cfg) w = (c, w1) -> w_conn
   end.
 Proof.
   intros cfg w c w1 H H0. unfold connect, prim1 in H. simpl in H.
-  destruct (run_prim (PConnect (c_ssl cfg)) w) as [c1 wa] eqn:E1.
+  (* T1: the fallback dial uses the same dial function and the same deadline context as the primary one *)
+  change fb_same_ctx with true in H. change fb_same_callee with true in H. rewrite andb_true_r in H.
+  destruct (run_prim (PConnect (c_ssl cfg) true) w) as [c1 wa] eqn:E1.
   pose proof (connect_spec _ _ _ _ E1 H0) as S1.
   destruct c1 as [e1 | ].
   - destruct S1 as (A & B & C). destruct (c_fallback cfg); simpl in H.
-    + destruct (run_prim (PConnect (c_ssl cfg)) wa) as [c2 wb] eqn:E2. simpl in H. inversion H; subst.
+    + destruct (run_prim (PConnect (c_ssl cfg) true) wa) as [c2 wb] eqn:E2. simpl in H. inversion H; subst.
       pose proof (connect_spec _ _ _ _ E2 A) as S2.
       destruct c; [ destruct S2 as (A2 & B2 & C2) | destruct S2 as (O2 & P2 & Q2 & R2 & B2 & C2) ];
         repeat split; auto; congruence.
@@ -253,9 +255,13 @@ Proof.
   - simpl in H. inversion H; subst. exact S1.
 Qed.
 
+Lemma run_conntls : forall A (k : bool -> prog A) w, run (bind (prim1 PConnTls) k) w = run (k (ctls (w_conn w))) w.
+Proof. reflexivity. Qed.
+
 (* the part of dial after the connection exists and the deadline is (or is not) set *)
 Definition dial_rest (fuel : nat) (cfg : config) : prog (res unit) :=
-  n <- new_client (c_ssl cfg) ;;
+  t <- prim1 PConnTls ;;
+  n <- new_client t ;;
   match n with
   | Err e => Ret (Err e)
   | Ok _ =>
@@ -290,7 +296,7 @@ Lemma dial_rest_closed : forall fuel cfg w r w', fx_close cfg = true -> opened (
   | Ok _ => Qinv w'
   end.
 Proof.
-  intros fuel cfg w r w' Hf Ho H. unfold dial_rest in H.
+  intros fuel cfg w r w' Hf Ho H. unfold dial_rest in H. rewrite run_conntls in H.
   sx H. pose proof (new_client_spec _ _ _ _ E) as Hn. inv_of prim_opened E. specialize (HI Ho).
   destruct a as [u | e].
   2:{ simpl in H. inversion H; subst. split; assumption. }
@@ -819,8 +825,8 @@ Lemma dial_rest_mandatory : forall fuel cfg w r w', c_policy cfg = Mandatory -> 
   run (dial_rest fuel cfg) w = (r, w') ->
   AllowedInv handshake_free_verb w' /\ (forall u, r = Ok u -> ctls (w_conn w') = true /\ opened (w_conn w') = true).
 Proof.
-  intros fuel cfg w r w' Hp Hs Ho HA H. unfold dial_rest in H.
-  sx H. allowed_of handshake_free_verb (sat_any_new_client handshake_free_verb (c_ssl cfg)) E HA.
+  intros fuel cfg w r w' Hp Hs Ho HA H. unfold dial_rest in H. rewrite run_conntls in H.
+  sx H. allowed_of handshake_free_verb (sat_any_new_client handshake_free_verb (ctls (w_conn w))) E HA.
   inv_of prim_opened E. specialize (HI Ho).
   destruct a as [u | e]; [ | simpl in H; inversion H; subst; split; [assumption | intros; discriminate] ].
   sx H. allowed_of handshake_free_verb (sat_any_hello_named handshake_free_verb hf_ehlo hf_helo) E0 HA0.
